@@ -14,12 +14,12 @@ import (
 
 func init() {
 	register(&core.Check{
-		ID:    "C38",
-		Title: "Linearizable reads complete without further writes",
+		ID:          "C38",
+		Title:       "Linearizable reads complete without further writes",
 		Explanation: "C38.a WHO+TABLE across the raft boundary: a linearizable read waits on Store.fsmTarget for the index returned by raft.CommitIndex(), which counts every entry type. The rule (1) re-derives from hashicorp/raft's runFSM (module cache source, SSA) which FSM callbacks receive which entry types — FSM.Apply/ApplyBatch for commands, ConfigurationStore.StoreConfiguration for configuration changes when the FSM implements it, none for noop/barrier; (2) requires that store.FSM implements raft.ConfigurationStore (go/types) and that each callback — FSM.Apply → fsmApply, FSM.Restore → fsmRestore, FSM.StoreConfiguration — signals fsmTarget on every path to its return, with the entry's own index; (3) for the entry types without a callback: raft.Barrier has no caller in non-test module code other than the exported Store.Barrier, which itself has none, and a leader's initial noop is followed by a command before any linearizable read is attempted (C02.a's strong-read-term test).",
-		NotCovered: []string{"timing (how long the wait takes)", "a Barrier issued through Store.Barrier by an embedding program: the read then waits for the next command (documented residual)"},
-		Run:        runC38,
-		NeedsCG:    false,
+		NotCovered:  []string{"timing (how long the wait takes)", "a Barrier issued through Store.Barrier by an embedding program: the read then waits for the next command (documented residual)"},
+		Run:         runC38,
+		NeedsCG:     false,
 	})
 }
 
